@@ -8,8 +8,10 @@
 // fake client. The two fake stores are synchronised at each hand-off point of the (serial) schedule:
 // scheduler store -> binder store before a binder step, binder store -> scheduler store after it. The
 // `binding` sub-resource is played by a client interceptor (the fake client has no such sub-resource): it
-// fails when the schedule says so, otherwise sets pod.spec.nodeName. `BindDoneStatusLost` fails the
-// BindRequest status patch instead.
+// fails (or panics: out = "panic") when the schedule says so, otherwise sets pod.spec.nodeName.
+// `BindDoneStatusLost` fails the BindRequest status patch instead. `SchedCycleRefused` is a scheduler cycle in
+// which a reactor of the scheduler-side KAI clientset refuses the DELETE of stale BindRequests (of pod p, or of
+// every pod for p = ""): the cycle is run as scheduler.runOnce does (an OpenSession error ends it).
 //
 // Input (-in): ndjson schedules {"id","lim","req":{"p1":100,..},"present":["p1",..],"steps":[{"n","p","out"}]}
 // as exported by TLC from spec/Handoff.tla (a step that is not enabled in the real state is skipped and
@@ -35,6 +37,7 @@ import (
 	"sort"
 	"strings"
 	"sync"
+	"sync/atomic"
 	"time"
 
 	"github.com/go-logr/logr"
@@ -127,6 +130,7 @@ type world struct {
 
 	// fault injection for the reconcile in flight
 	failBind        bool
+	panicBind       bool // the call of the binding sub-resource panics (inside binder.Bind)
 	failStatusPatch bool
 	failReserveAt   int  // the n-th ReserveGpuDevice call of the reconcile fails (0 = none)
 	failRollback    bool // RemovePodGpuGroupsConnection fails: labels written so far stay on the pod
@@ -135,6 +139,11 @@ type world struct {
 	reserveCalls    int
 	// observations of the reconcile in flight
 	bindCalled, bindFailed, getFailed bool
+
+	// fault injection for the scheduler cycle in flight: DELETE of the BindRequest of these pods is refused
+	refuseDelete   bool
+	refuseDeleteOf string // "" = every BindRequest of the namespace
+	refusedDeletes atomic.Int32
 
 	// harness-side bookkeeping (ghost state of the trace)
 	createCalls     int
@@ -145,6 +154,8 @@ type world struct {
 	fl              map[string]int  // failed reconciles of the current incarnation
 	restarts, flips int
 	leaks           int
+	refusals        int // scheduler cycles with refused DELETEs
+	panics          int // bind attempts that panicked
 	draining        bool
 	barriers        int
 	slotOf          map[string]int // GPU group id -> abstract slot (smallest slot not referenced in the store when first seen)
@@ -191,6 +202,17 @@ func newWorld(sc scenario, pods []string) *world {
 			br.Spec.BackoffLimit = int32p(int32(w.sc.Lim))
 		}
 		return false, nil, nil
+	})
+
+	// the API server refuses the DELETE of (stale) BindRequests while the flag of the SchedCycleRefused step is set
+	// (cleanStaleBindRequest issues the DELETEs from goroutines; the flag is written before OpenSession is called)
+	w.kai.PrependReactor("delete", "bindrequests", func(a k8stesting.Action) (bool, k8sruntime.Object, error) {
+		da, ok := a.(k8stesting.DeleteAction)
+		if !ok || !w.refuseDelete || a.GetNamespace() != ns || (w.refuseDeleteOf != "" && w.refuseDeleteOf != da.GetName()) {
+			return false, nil, nil
+		}
+		w.refusedDeletes.Add(1)
+		return true, nil, apierrors.NewServiceUnavailable("verif: the API server refuses the DELETE of the BindRequest")
 	})
 
 	mustCreate := func(err error) {
@@ -316,6 +338,10 @@ func newWorld(sc scenario, pods []string) *world {
 					return c.SubResource(sub).Create(ctx, obj, subObj, opts...)
 				}
 				w.bindCalled = true
+				if w.panicBind {
+					w.bindFailed = true
+					panic("verif: injected panic in the call of the binding sub-resource")
+				}
 				if w.failBind {
 					w.bindFailed = true
 					return apierrors.NewServiceUnavailable("verif: injected failure of the binding sub-resource")
@@ -861,7 +887,8 @@ func (w *world) projectStore() map[string]any {
 		}
 		pods[p] = e
 	}
-	return map[string]any{"up": b2i(w.nodeUp()), "flips": w.flips, "restarts": w.restarts, "leaks": w.leaks, "drain": b2i(w.draining), "pods": pods}
+	return map[string]any{"up": b2i(w.nodeUp()), "flips": w.flips, "restarts": w.restarts, "leaks": w.leaks, "refusals": w.refusals, "panics": w.panics,
+		"drain": b2i(w.draining), "pods": pods}
 }
 
 func noSnap(pods []string) map[string]any {
@@ -926,22 +953,35 @@ func (w *world) brNames() map[string]types.UID {
 	return out
 }
 
-func (w *world) schedCycle() map[string]any {
+// schedCycle runs one cycle as scheduler.runOnce does. refuse = the API server refuses the DELETE of the BindRequest
+// of pod refuseOf ("" = of every pod) during the cycle: cleanStaleBindRequest then fails, Snapshot returns its error,
+// OpenSession fails and runOnce gives up ("will try again next cycle"): no snapshot is observed, nothing is allocated.
+func (w *world) schedCycle(refuse bool, refuseOf string) map[string]any {
 	w.waitInformers()
 	before := w.brNames()
+	w.refuseDelete, w.refuseDeleteOf = refuse, refuseOf
+	w.refusedDeletes.Store(0)
 	ssn, err := framework.OpenSession(w.cache, w.schedCf, w.params, "verif", &http.ServeMux{})
-	if err != nil {
+	w.refuseDelete, w.refuseDeleteOf = false, ""
+	snap := noSnap(w.pods)
+	switch {
+	case err != nil && !(refuse && w.refusedDeletes.Load() > 0 && strings.Contains(err.Error(), "failed to delete stale bind request")):
 		infra("OpenSession: %v", err)
+	case err != nil: // runOnce: "Error while opening session, will try again next cycle"
+	default:
+		snap = w.projectSnapshot(ssn)
+		acts, err := conf_util.GetActionsFromConfig(w.schedCf)
+		if err != nil {
+			infra("actions: %v", err)
+		}
+		for _, a := range acts {
+			a.Execute(ssn)
+		}
+		framework.CloseSession(ssn)
 	}
-	snap := w.projectSnapshot(ssn)
-	acts, err := conf_util.GetActionsFromConfig(w.schedCf)
-	if err != nil {
-		infra("actions: %v", err)
+	if refuse {
+		w.refusals++
 	}
-	for _, a := range acts {
-		a.Execute(ssn)
-	}
-	framework.CloseSession(ssn)
 	after := w.brNames()
 	for _, p := range w.pods {
 		b, hadBefore := before[p]
@@ -957,11 +997,11 @@ func (w *world) schedCycle() map[string]any {
 }
 
 // reconcile runs one real Reconcile of the BindRequest of p under the fault `mode`:
-// ok | fail (binding sub-resource fails) | faillabel (2nd GPU group reservation fails, rollback fails) |
+// ok | fail (binding sub-resource fails) | panic (the call of the binding sub-resource panics) | faillabel (2nd GPU group reservation fails, rollback fails) |
 // statuslost (status patch fails) | crash (binder dies right after the next new label; restart).
 func (w *world) reconcile(p string, mode string) map[string]any {
 	w.syncToBinder()
-	w.failBind, w.failStatusPatch = mode == "fail", mode == "statuslost"
+	w.failBind, w.failStatusPatch, w.panicBind = mode == "fail", mode == "statuslost", mode == "panic"
 	w.failReserveAt, w.failRollback, w.crashAfterLabel, w.dead, w.reserveCalls = 0, false, mode == "crash", false, 0
 	if mode == "faillabel" {
 		w.failReserveAt, w.failRollback = 2, true
@@ -979,7 +1019,7 @@ func (w *world) reconcile(p string, mode string) map[string]any {
 	getFailed, bindCalled, bindFailed := w.getFailed, w.bindCalled, w.bindFailed
 	reserveFailed := w.failReserveAt > 0 && w.reserveCalls >= w.failReserveAt
 	died := w.dead
-	w.failBind, w.failStatusPatch = false, false
+	w.failBind, w.failStatusPatch, w.panicBind = false, false, false
 	w.failReserveAt, w.failRollback, w.crashAfterLabel, w.dead = 0, false, false, false
 	patched := false
 	after := &schedulingv1alpha2.BindRequest{}
@@ -1005,6 +1045,9 @@ func (w *world) reconcile(p string, mode string) map[string]any {
 	if reserveFailed {
 		w.leaks++
 	}
+	if mode == "panic" && bindFailed {
+		w.panics++
+	}
 	rq := 0
 	if res.RequeueAfter > 0 {
 		rq = int(res.RequeueAfter / time.Second)
@@ -1029,7 +1072,9 @@ func (w *world) apply(s step) (map[string]any, map[string]any, int) {
 	}
 	switch s.N {
 	case "SchedCycle":
-		snap = w.schedCycle()
+		snap = w.schedCycle(false, "")
+	case "SchedCycleRefused":
+		snap = w.schedCycle(true, s.P)
 	case "BinderAttempt": // only queued keys are reconciled (controller-runtime work queue)
 		mode := s.Out
 		if mode == "" {
@@ -1081,9 +1126,19 @@ func (w *world) enabled(s step, maxRestarts, maxFlips int) bool {
 	switch s.N {
 	case "SchedCycle":
 		return true
+	case "SchedCycleRefused": // some stale BindRequest whose DELETE would be refused
+		for _, p := range w.pods {
+			if (s.P == "" || s.P == p) && w.stale(p) {
+				return true
+			}
+		}
+		return false
 	case "BinderAttempt":
 		if s.Out == "faillabel" {
 			return w.q[s.P] && w.reach(s.P) && w.sc.Req[s.P] < 100 && w.sc.Nd[s.P] == 2
+		}
+		if s.Out == "panic" {
+			return w.q[s.P] && w.reach(s.P)
 		}
 		return w.q[s.P]
 	case "BindDoneStatusLost":
@@ -1131,6 +1186,18 @@ func (w *world) enabled(s step, maxRestarts, maxFlips int) bool {
 func (w *world) reach(p string) bool {
 	br, pod := w.getBr(p), w.getPod(p)
 	return br != nil && br.Status.Phase != schedulingv1alpha2.BindRequestPhaseSucceeded && pod != nil && pod.Spec.NodeName == "" && w.nodeUp()
+}
+
+// terminal: the BindRequest of p is terminally failed (bindrequest_info.IsFailed)
+func (w *world) terminal(p string) bool {
+	br := w.getBr(p)
+	return br != nil && br.Status.Phase == schedulingv1alpha2.BindRequestPhaseFailed &&
+		(br.Spec.BackoffLimit == nil || br.Status.FailedAttempts >= *br.Spec.BackoffLimit)
+}
+
+// stale: the scheduler deletes the BindRequest of p in its next cycle (selected node deleted, or terminally failed)
+func (w *world) stale(p string) bool {
+	return w.getBr(p) != nil && (!w.nodeUp() || w.terminal(p))
 }
 
 // drain: the environment becomes fault-free. Orphaned BindRequests are garbage collected, the binder's queue is
@@ -1211,11 +1278,20 @@ func runScenario(sc scenario, pods []string, tw *tracefmt.Writer, rnd *rand.Rand
 			}
 		}
 		add(step{N: "SchedCycle"}, 6)
+		if w.refusals < 3 {
+			add(step{N: "SchedCycleRefused"}, 3)
+		}
 		add(step{N: "BinderRestart"}, 1)
 		add(step{N: "NodeDeleted"}, 1)
 		add(step{N: "NodeAdded"}, 3)
 		for _, p := range pods {
 			add(step{N: "BinderAttempt", P: p, Out: "fail"}, 6)
+			if w.panics < 6 && !w.terminal(p) { // the environment of the model: see PanicEnabled in spec/Handoff.tla
+				add(step{N: "BinderAttempt", P: p, Out: "panic"}, 3)
+			}
+			if w.refusals < 3 {
+				add(step{N: "SchedCycleRefused", P: p}, 1)
+			}
 			if w.leaks < 2 {
 				add(step{N: "BinderAttempt", P: p, Out: "faillabel"}, 3)
 			}
